@@ -383,6 +383,9 @@ func Main(prop string) {
 	}
 
 	for _, sc := range corpus() {
+		if StuckTotal >= 3 {
+			break
+		}
 		s, stranded := Run(sc)
 		report(sc, s, stranded, true)
 	}
@@ -391,6 +394,9 @@ func Main(prop string) {
 		fine := expand(b)
 		for k := 0; k <= len(fine); k++ {
 			for ii, inj := range injections(b) {
+				if StuckTotal >= 3 {
+					break
+				}
 				if !c.Thorough() && (k+ii)%2 == 1 && ii > 3 {
 					continue
 				}
@@ -413,11 +419,15 @@ func Main(prop string) {
 		}
 	}
 	n := c.N(1500, 40000)
-	for i := 0; i < n; i++ {
+	for i := 0; i < n && StuckTotal < 3; i++ {
 		s, stranded, sc := randomRun(c.Rng.Fork())
 		report(sc, s, stranded, i < c.N(200, 6000))
 	}
-	free(c, prop)
+	if StuckTotal >= 3 {
+		c.Note("generation stopped early: 3 goroutines never reached their next scheduling point")
+	} else {
+		free(c, prop)
+	}
 	c.Obs.Rule = "single-stepped runs of a real rpc.Engine (fake clock, injected send/drop, 1-4 concurrent Do calls): forced witness schedules, close/cancel/result/ack/timer injected at every scheduling point of 7 baseline histories, and random schedules; non-trivial = distinct event sequence in which the steps of at least one goroutine are interleaved with another goroutine's steps"
 	c.Finish()
 }
